@@ -63,6 +63,16 @@ class Stream:
         self.f = self.fil._file
         self.f.seek(0)  # histories start after a first successful seek (see MC_Stream)
         self.events = []
+        self.held = []          # (array handed out earlier, copy of it): results are values, later reads must not change them
+
+    def _stale(self, new=None):
+        bad = any(not np.array_equal(a, snap) for a, snap in self.held)
+        if bad:
+            self.held.clear()
+        if new is not None:
+            self.held.append((new, np.array(new, copy=True)))
+            del self.held[:-4]
+        return bad
 
     def hdr(self):
         h = {"files": self.files, "nbits": self.nbits, "nchans": self.nchans, "p0": 0}
@@ -89,6 +99,8 @@ class Stream:
         try:
             arr = self.f.cread(n)
             out = [int(x) for x in arr] if self.nbits < 8 else list(arr.tobytes())
+            if self._stale(arr):
+                exc = RuntimeError("an array returned by an earlier read changed")
         except Exception as e:  # noqa: BLE001
             exc = e
         self.events.append({"op": "cread", "n": n, "outcome": _oc(exc), "out": out, "pos": self.pos()})
